@@ -1851,6 +1851,21 @@ class Engine:
                 r = (not r) if isinstance(r, bool) else z3.Not(r)
             return self.bool_sv(r)
         # ordering
+        if isinstance(a, STuple) and isinstance(b, STuple):
+            # lexicographic order of tuples of statically known length: the first position whose elements
+            # differ (==) decides by the elements' order; equal prefixes decide by length.  Every
+            # element-wise comparison is evaluated (its TypeError paths are not guarded by "the earlier
+            # positions were equal": an over-approximation of the raising paths, never of the value).
+            def zb(x):
+                return z3.BoolVal(x) if isinstance(x, bool) else x
+            n = min(len(a.items), len(b.items))
+            res = zb(_CMP[type(op)](len(a.items), len(b.items)))
+            strict = {ast.Lt: ast.Lt, ast.LtE: ast.Lt, ast.Gt: ast.Gt, ast.GtE: ast.Gt}[type(op)]()
+            for i in reversed(range(n)):
+                eq_i = zb(self.equal(a.items[i], b.items[i], node))
+                cmp_i = zb(self.truth(self.compare(strict, a.items[i], b.items[i], node)))
+                res = z3.If(eq_i, res, cmp_i)
+            return self.bool_sv(res)
         ta, tb = self.lift(a), self.lift(b)
         V = Val
         name = type(op).__name__
